@@ -219,6 +219,7 @@ def run(repo, res, tier):
     d7(repo, res)
     d8(repo, res)
     d9(repo, res)
+    d10(repo, res)
     res.assumptions += [f"triaged lazy initialisation (not traversed): {k} - {v}" for k, v in LAZY_INIT.items()]
     res.assumptions += [f"triaged cache {c}.{p}*: {v}" for (c, p), v in CACHES.items()]
     return extra
@@ -330,6 +331,28 @@ def d9(repo, res):
                     res.add(Finding("D9", m.rel, fname, minority, f"pose-path entries {sorted(by)} of `{root}` are combined in one construction: on a path whose orientation "
                                     "changes the local model is built from two different poses", minority.lineno))
     res.require(n >= 1, "anchor vanished: no display function combining constant pose-path entries (make_mag_arrows confirmed by hand)")
+
+
+def d10(repo, res):
+    """D10 merging traces keeps every vertex: in merge_scatter3d / merge_mesh3d the merged coordinate arrays are the concatenation of the
+    inputs' coordinates (plus separators); no slice is taken of a merged coordinate array afterwards - dropping "the dangling separator"
+    with `[:-1]` drops the last vertex of the last line instead (separators are put in front of each trace)."""
+    m = repo.mod("magpylib._src.display.traces_utility")
+    n = 0
+    for fname in ("merge_scatter3d", "merge_mesh3d"):
+        fn = m.funcs.get(fname)
+        if fn is None:
+            continue
+        n += 1
+        merged = {t.value.id for a in ast.walk(fn) if isinstance(a, ast.Assign) for t in a.targets if isinstance(t, ast.Subscript) and isinstance(t.value, ast.Name)
+                  and isinstance(a.value, ast.Call) and getattr(a.value.func, "attr", "") in ("hstack", "concatenate", "vstack")}
+        cuts = [x for x in ast.walk(fn) if isinstance(x, ast.Subscript) and isinstance(x.slice, ast.Slice) and isinstance(x.value, ast.Subscript)
+                and isinstance(x.value.value, ast.Name) and x.value.value.id in merged and isinstance(x.ctx, ast.Load)]
+        res.ob(f"D10:{fname}", not cuts, {"rule": "D10", "function": fname, "merged_containers": sorted(merged), "slices_of_merged_coordinates": [norm(c) for c in cuts]})
+        for c in cuts:
+            res.add(Finding("D10", m.rel, fname, c, "a slice of a merged coordinate array drops vertices of the merged traces (the separators precede each trace, so the "
+                            "last entry is a vertex): the last segment of the last line is not drawn", c.lineno))
+    res.require(n >= 1, "anchor vanished: merge_scatter3d / merge_mesh3d")
 
 
 def d7(repo, res):
